@@ -198,3 +198,34 @@ PROPS['C11'] = dict(
     technique='property-based testing (rapidcheck): geometric corner oracle + sharing invariants + global counting identity',
     assumptions=['boundary vertex 0 is topological corner 0 (documented boundary order)'],
 )
+
+PROPS['C09'] = dict(
+    src='props/C09.cpp', variants=['fast', 'asan'], level='exploration',
+    rule=('(origin, radius K): reference BFS ball over the geometric neighbour graph (exact distances inside the ball), gridDistance both ways for every cell of the ball, IJ round trips, unit-step '
+          'property where the ball holds no pentagon; resolution mismatches; (origin, i, j) probes incl. +-INT32_MAX extremes under UBSan; complete strata: every ordered pair of res 0 and res 1 '
+          '(res 2: every 7th origin quick, all origins thorough), balls around the k<=2 disks of all pentagons at all res. '
+          'non-trivial = the ball contains a pentagon or crosses a base-cell seam, a successful IJ probe, a mismatch pair, a whole-globe origin; distinct by the case tuple'),
+    quick=dict(cases={'fast': 80_000, 'asan': 6_000}, enum={'fast': 8}),
+    thorough=dict(cases={'fast': 1_500_000, 'asan': 80_000}, enum={'fast': 16}),
+    strata=dict(quick=['all ordered pairs res 0, res 1; res 2 from every 7th origin', 'radius-6 balls around k<=2 disks of 12 pentagons x 16 res'], thorough=['all ordered pairs res 0..2', 'radius-16 balls around pentagon disks']),
+    level_text=('every successful gridDistance is compared with the breadth-first distance on a neighbour graph derived from geometry (whole globe at res 0-2, balls of radius <=20/30 elsewhere); symmetry, 0 for a=b, success and 1 for all neighbours; '
+                'cellToLocalIj/localIjToCell mutually inverse wherever both succeed, results valid cells of the origin resolution, unit steps between neighbours away from pentagons, extreme IJ without UB'),
+    level_note='trusted: geometric neighbour graph (engine/topo.hpp); gridDistance/cellToLocalIj failures are allowed wherever the statement allows them (only a=b and neighbours must succeed)',
+    technique='property-based testing (rapidcheck): reference BFS differential + round trip; exhaustive all-pairs at coarse resolutions',
+    assumptions=['a BFS ball of radius K contains every shortest path of length <= K from its centre'],
+)
+
+PROPS['C14'] = dict(
+    src='props/C14.cpp', variants=['fast', 'asan'], level='exploration',
+    rule=('(start, end) pairs: every cell of a reference BFS ball (radius <=10 quick / 20 thorough) around origins from the stress mixture as end (exact distance known), both directions for a=b and neighbours; '
+          'explicit pairs up to ~600 cells apart at fine resolutions (long paths); complete strata: every origin of res 0-1 (0-2) x radius 4 (8), k<=2 disks of all pentagons at all res x radius 4 (8). '
+          'non-trivial = the ball contains a pentagon or crosses a base-cell seam, or a path of >=100 cells; distinct by the case tuple'),
+    quick=dict(cases={'fast': 40_000, 'asan': 4_000}, enum={'fast': 8}),
+    thorough=dict(cases={'fast': 800_000, 'asan': 50_000}, enum={'fast': 16}),
+    strata=dict(quick=['all origins res 0..1 x radius-4 balls', 'pentagon k<=2 disks x 16 res x radius-4 balls'], thorough=['all origins res 0..2 x radius-8 balls', 'pentagon disks x radius-8 balls']),
+    level_text=('validity predicate over the path: exactly gridPathCellsSize = gridDistance+1 cells in an exactly sized guarded buffer, first = start, last = end, every cell valid and a geometric neighbour of its predecessor, '
+                'length = reference BFS distance + 1 where that is known; must succeed for a=b and every neighbour pair; guard words intact on failure'),
+    level_note='trusted: geometric neighbour graph (engine/topo.hpp); for long paths the exact distance is not recomputed (contiguity + announced length + C09 give shortestness)',
+    technique='property-based testing (rapidcheck): validity predicate over the produced path + reference BFS distance',
+    assumptions=['C09 (gridDistance is the graph distance) for shortestness of long paths'],
+)
